@@ -247,3 +247,62 @@ def scenario(c, inst, props):
                 c.check(P9 + ".callbacks_once_per_outer_step", len(cb_calls) == len(oracle.calls) == len(T) - 1, info=dict(cb=len(cb_calls), steps=len(oracle.calls), rows=len(T)))
                 if dense:
                     piece_checks(c, P9 + ".dense", a, probe, backward)
+
+
+def scenario_e2e(c, inst, props):
+    """End-to-end cross-check: REAL integrate + REAL handle_events + REAL brentsrootvec on a time event g = alpha*(t - r)
+    (alpha concrete over several orders of magnitude, r symbolic strictly inside the single step)."""
+    if c.symbolic:
+        c.ackermann = False
+    fam = inst["family"]
+    method, shape, kind = spans.FAMILIES[fam]
+    t0, tf = c.real("t0"), c.real("tf")
+    c.assume(absval(c, tf - t0) >= 1.0 / 64)
+    c.assume(absval(c, tf - t0) <= 64)
+    for v in (t0, tf):
+        c.assume(v <= 64)
+        c.assume(v >= -64)
+    dt0 = tf - t0                      # exactly one step
+    alpha = inst["alpha"]
+    lam = c.real("rho")
+    c.assume(lam > 1.0 / 64)
+    c.assume(lam < 63.0 / 64)
+    r = t0 + lam * (tf - t0)
+    dense = inst.get("dense", True)
+    rhs = FreshRhs(c, shape, name="f", mode="uf")
+    st, built = run(spans.build_system, c, dict(inst, N=1), t0, tf, dt0, dense, rhs)
+    if st != "ok":
+        c.check("%s.e2e.constructs" % min(props).lower(), False, info=repr(built))
+        return
+    a, _, log = built
+
+    def ev(t, y, **kw):
+        return alpha * (t - r)
+    ev.is_terminal = bool(inst.get("terminal", False))
+    ev.direction = inst.get("direction", 0)
+    backward = bool(tf - t0 < 0)
+    st, res = run(a.integrate, events=[ev])
+    P = min(props).lower() + ".e2e"
+    if st != "ok":
+        c.check(P + ".integrate_returns", False, info=repr(res) + " / " + repr(getattr(res, "__cause__", None)))
+        return
+    c.case()
+    rec = list(a.events)
+    c.note("recorded_events", len(rec))
+    # the crossing direction along the direction of integration
+    up_along = (alpha > 0) != backward
+    wanted = ev.direction == 0 or (ev.direction > 0) == up_along
+    tol_x = 64 * spans.EPS64 * 64
+    if "C08" in props:
+        if wanted:
+            c.check(P + ".interior_crossing_is_reported", len(rec) >= 1, info=dict(alpha=alpha, backward=backward, dense=dense, direction=ev.direction))
+    if "C07" in props:
+        if not wanted:
+            c.check(P + ".crossing_in_unrequested_direction_not_reported", len(rec) == 0, info=dict(alpha=alpha, direction=ev.direction))
+        c.check(P + ".at_most_one_report_per_crossing", len(rec) <= 1, info=dict(n=len(rec)))
+        for e in rec:
+            c.check(P + ".event_time_is_the_root", c.le(absval(c, e.t - r), tol_x), info=dict(alpha=alpha))
+            c.check(P + ".event_function_vanishes_at_event", c.le(absval(c, alpha * (e.t - r)), abs(alpha) * tol_x))
+    if "C09" in props and ev.is_terminal and wanted:
+        c.check(P + ".stops_at_event", c.le(absval(c, a.t[-1] - r), tol_x) and
+                a.integration_status == "Integration terminated upon finding a triggered event." if len(rec) else False, info=dict(rows=len(a.t)))
